@@ -48,6 +48,7 @@ theorem mstep_viol_mono {m : MState} {o : Obs} (h : (mstep m o).viol = none) : m
   | retire f => simp only [mstep] at h; split at h <;> exact h
   | point p n => exact h
   | ask c => exact h
+  | expire c => exact h
 
 theorem mrun_viol_mono {obs : List Obs} {m : MState} (h : (mrun m obs).viol = none) : m.viol = none := by
   induction obs generalizing m with
@@ -99,6 +100,11 @@ theorem mstep_asked_inv {m : MState} {o : Obs} {c : Cid} (A : Fid → Bool) (ho 
   | ask c' =>
     have hc : c ≠ c' := fun e => ho (by rw [e])
     simpa [mstep, upd, hc] using h
+  | expire c' =>
+    simp only [mstep]
+    by_cases hc : c = c'
+    · subst hc; simpa [upd] using h
+    · simpa [upd, hc] using h
 
 theorem mrun_asked_inv {obs : List Obs} {m : MState} {c : Cid} (A : Fid → Bool) (ho : ∀ x ∈ obs, x ≠ Obs.ask c)
     (h : ∀ f, (m.callers c).asked f = false → A f = false) : ∀ f, ((mrun m obs).callers c).asked f = false → A f = false := by
@@ -127,6 +133,7 @@ theorem mstep_announced (m : MState) (o : Obs) (f : Fid) :
   | retire g => simp only [mstep]; split <;> simp
   | point p n => simp [mstep]
   | ask c => simp [mstep]
+  | expire c => simp [mstep]
 
 theorem mrun_announced (obs : List Obs) (m : MState) (f : Fid) :
     (mrun m obs).announced f = true ↔ (m.announced f = true ∨ Obs.announce f ∈ obs) := by
@@ -259,6 +266,79 @@ theorem monitor_fetchErr_linearised (skip : Bool) (pre mid post : List Obs) (c :
   rw [hasked f hm.1] at this
   exact Bool.noConfusion this
 
+/-- The monitor regards the own context of call `c` as ended only after it has observed `cancel c` or `expire c` (the deadline of that
+    call's context passed): no observation about ANOTHER call, a download, a rotation or a publication ends it. -/
+theorem mstep_cancelled {m : MState} {o : Obs} {c : Cid} (h : ((mstep m o).callers c).cancelled = true) :
+    (m.callers c).cancelled = true ∨ o = Obs.cancel c ∨ o = Obs.expire c := by
+  cases o with
+  | start c' tok =>
+    simp only [mstep] at h; split at h
+    · exact Or.inl (by simpa using h)
+    · by_cases hc : c = c'
+      · subst hc; simp [upd] at h
+      · exact Or.inl (by simpa [upd, hc] using h)
+  | finish c' oc =>
+    simp only [mstep] at h
+    by_cases hc : c = c'
+    · subst hc; split at h <;> exact Or.inl (by simpa [upd] using h)
+    · split at h <;> exact Or.inl (by simpa [upd, hc] using h)
+  | cancel c' =>
+    by_cases hc : c = c'
+    · subst hc; exact Or.inr (Or.inl rfl)
+    · exact Or.inl (by simpa [mstep, upd, hc] using h)
+  | rotate ks => exact Or.inl h
+  | fetchBegin f owner =>
+    simp only [mstep] at h
+    by_cases hc : c = owner
+    · subst hc; repeat' split at h
+      all_goals exact Or.inl (by simpa [upd] using h)
+    · repeat' split at h
+      all_goals exact Or.inl (by simpa [upd, hc] using h)
+  | fetchEnd f a => simp only [mstep] at h; split at h <;> exact Or.inl (by simpa using h)
+  | announce f => exact Or.inl h
+  | retire f => simp only [mstep] at h; split at h <;> exact Or.inl (by simpa using h)
+  | point p n => exact Or.inl h
+  | ask c' =>
+    by_cases hc : c = c'
+    · subst hc; exact Or.inl (by simpa [mstep, upd] using h)
+    · exact Or.inl (by simpa [mstep, upd, hc] using h)
+  | expire c' =>
+    by_cases hc : c = c'
+    · subst hc; exact Or.inr (Or.inr rfl)
+    · exact Or.inl (by simpa [mstep, upd, hc] using h)
+
+theorem mrun_cancelled {obs : List Obs} {m : MState} {c : Cid} (h : ((mrun m obs).callers c).cancelled = true) :
+    (m.callers c).cancelled = true ∨ Obs.cancel c ∈ obs ∨ Obs.expire c ∈ obs := by
+  induction obs generalizing m with
+  | nil => exact Or.inl h
+  | cons o os ih =>
+    rw [mrun_cons] at h
+    rcases ih h with h1 | h1 | h1
+    · rcases mstep_cancelled h1 with h2 | h2 | h2
+      · exact Or.inl h2
+      · exact Or.inr (Or.inl (by rw [h2]; exact List.mem_cons_self ..))
+      · exact Or.inr (Or.inr (by rw [h2]; exact List.mem_cons_self ..))
+    · exact Or.inr (Or.inl (List.mem_cons_of_mem _ h1))
+    · exact Or.inr (Or.inr (List.mem_cons_of_mem _ h1))
+
+/-- **Isolation of contexts, for both kinds of ending (position-explicit).** In a run the monitor accepts, a call that returns its own
+    context error, or the error of a download that was ended by a context (`context canceled` AND `context deadline exceeded`: somebody's
+    `cancel()` or somebody's deadline), has seen ITS OWN context end before it returned: `cancel c` or `expire c` occurs in the run
+    before `finish c`. Cancellations and deadlines of every other call may be anywhere in the run. -/
+theorem monitor_own_context_isolation (skip : Bool) (before post : List Obs) (c : Cid) (o : Outcome)
+    (ho : o = .ctxErr ∨ o = .fetchErr .cancelled)
+    (hmon : monitor skip (before ++ Obs.finish c o :: post) = none) :
+    Obs.cancel c ∈ before ∨ Obs.expire c ∈ before := by
+  have hj := judge_of_monitor hmon
+  have hc : ((mrun { skip := skip } before).callers c).cancelled = true := by
+    generalize mrun { skip := skip } before = m2 at hj
+    unfold judge at hj
+    rcases ho with rfl | rfl <;> simp only at hj <;> (repeat' split at hj) <;> simp_all
+  rcases mrun_cancelled hc with h | h | h
+  · simp at h
+  · exact Or.inl h
+  · exact Or.inr h
+
 /-! ## Part 2 — every schedule of the regenerated single-flight logic -/
 
 section model
@@ -296,7 +376,96 @@ theorem jwks_fetchErr_linearised (pre mid post : List Obs) (c : Cid) (k : EndKin
     ∃ f, failedWith (mrun { skip := cfg.skipRemoteCheck } (pre ++ Obs.ask c :: mid)) f k = true ∧ Obs.announce f ∉ pre :=
   monitor_fetchErr_linearised cfg.skipRemoteCheck pre mid post c k hmid (jwks_model_satisfies_monitor cfg hd tr s _ h)
 
+/-- **One caller's cancellation — or deadline — does not fail another caller**, for every schedule of the transition system built from the
+    regenerated facts (`GenJwks.facts`: the shared download runs under `context.WithoutCancel(ctx)`, i.e. `spawnCtx = detached`: no
+    cancellation, no deadline) and decision functions, with `Act.cancel` and `Act.expire` steps of any calls at arbitrary positions: a call
+    that returns a context error — its own, or that of a download ended by a context — has had `cancel c` or `expire c` of ITS OWN context
+    before. -/
+theorem jwks_own_context_isolation (before post : List Obs) (c : Cid) (o : Outcome)
+    (h : run GenJwks.facts GenJwks.logic cfg {} tr = some (s, before ++ Obs.finish c o :: post))
+    (ho : o = .ctxErr ∨ o = .fetchErr .cancelled) :
+    Obs.cancel c ∈ before ∨ Obs.expire c ∈ before :=
+  monitor_own_context_isolation cfg.skipRemoteCheck before post c o ho (jwks_model_satisfies_monitor cfg hd tr s _ h)
+
 end model
+
+/-! ## Part 2b — what the end of a call's context touches (one step, regenerated facts) -/
+
+/-- The deadline of a call's context passes (`Act.expire c`): with the regenerated facts nothing but that call's own liveness changes — no
+    download is ended, the cache, the in-flight request, every download and every other call are untouched, and the only observation is
+    `expire c`. The download's context is a FACT regenerated from the source (`go r.updateKeys(context.WithoutCancel(ctx))` ⇒
+    `spawnCtx = detached`); this statement is about `GenJwks.facts`, so another context expression changes or breaks it. -/
+theorem jwks_expire_touches_only_its_call (cfg : JwksSet) (s s' : State) (c : Cid) (obs : List Obs)
+    (hx : exec GenJwks.facts GenJwks.logic cfg s (.expire c) = some (s', obs)) :
+    obs = [Obs.expire c] ∧ s'.fetches = s.fetches ∧ s'.nf = s.nf ∧ s'.cached = s.cached ∧ s'.inflight = s.inflight ∧ s'.crashed = s.crashed ∧
+      (∀ c', c' ≠ c → s'.callers c' = s.callers c') ∧
+      (s'.callers c).pc = (s.callers c).pc ∧ (s'.callers c).tok = (s.callers c).tok ∧ (s'.callers c).live = false := by
+  rw [facts_bridge] at hx
+  simp only [exec] at hx
+  split at hx
+  · simp at hx
+  · have hdet : fixedFacts.spawnCtx.keepsDeadline = false := by decide
+    simp only [hdet, Bool.false_eq_true, if_false, Option.some.injEq, Prod.mk.injEq] at hx
+    obtain ⟨rfl, rfl⟩ := hx
+    refine ⟨rfl, rfl, rfl, rfl, rfl, rfl, ?_, by simp, by simp, by simp⟩
+    intro c' hc
+    simp [upd, hc]
+
+/-- … and the same for an explicit `cancel()` of a call's context -/
+theorem jwks_cancel_touches_only_its_call (cfg : JwksSet) (s s' : State) (c : Cid) (obs : List Obs)
+    (hx : exec GenJwks.facts GenJwks.logic cfg s (.cancel c) = some (s', obs)) :
+    obs = [Obs.cancel c] ∧ s'.fetches = s.fetches ∧ s'.nf = s.nf ∧ s'.cached = s.cached ∧ s'.inflight = s.inflight ∧ s'.crashed = s.crashed ∧
+      (∀ c', c' ≠ c → s'.callers c' = s.callers c') ∧
+      (s'.callers c).pc = (s.callers c).pc ∧ (s'.callers c).tok = (s.callers c).tok ∧ (s'.callers c).live = false := by
+  rw [facts_bridge] at hx
+  simp only [exec] at hx
+  split at hx
+  · simp at hx
+  · have hdet : (fixedFacts.spawnCtx == CtxKind.caller) = false := by decide
+    simp only [hdet, Bool.false_eq_true, if_false, Option.some.injEq, Prod.mk.injEq] at hx
+    obtain ⟨rfl, rfl⟩ := hx
+    refine ⟨rfl, rfl, rfl, rfl, rfl, rfl, ?_, by simp, by simp, by simp⟩
+    intro c' hc
+    simp [upd, hc]
+
+/-! ## Part 2c — non-vacuity and sensitivity: deadlines -/
+
+/-- Call 0 carries a deadline and starts the download, call 1 joins it; the deadline of call 0 passes before the endpoint answers. -/
+def traceDeadline : List Act :=
+  [.rotate [{ jwk := wk1 }], .start 0 (wtok "k1" 2 1), .start 1 (wtok "k1" 2 2), .cacheRead 0, .cacheRead 1,
+   .enter 0, .enter 1, .expire 0, .wake 0 true, .respond 0 (ansOk [{ jwk := wk1 }]), .upd 0, .wake 1 false]
+
+/-- on the regenerated model the starter fails with its own context error and the joiner verifies -/
+example : verdict GenJwks.facts traceDeadline = some (none, [(0, .ctxErr), (1, .payload 2)]) := by rw [facts_bridge]; decide
+
+/-- the same schedule when the download is given the starter's deadline (cancellation detached, deadline kept — seeded C13-N): the
+    starter's deadline ends the shared download and fails the joiner, and the monitor says so -/
+def traceDeadline' : List Act :=
+  [.rotate [{ jwk := wk1 }], .start 0 (wtok "k1" 2 1), .start 1 (wtok "k1" 2 2), .cacheRead 0, .cacheRead 1,
+   .enter 0, .enter 1, .expire 0, .wake 0 true, .upd 0, .wake 1 false]
+theorem jwks_deadline_isolation_needs_no_deadline :
+    verdict { fixedFacts with spawnCtx := .deadlineOnly } traceDeadline' = some (some "cancel-isolation", [(0, .ctxErr), (1, .fetchErr .cancelled)]) := by decide
+
+/-- with the caller's own context (before F-C13a's repair) a deadline does the same as a cancellation -/
+example : verdict { fixedFacts with spawnCtx := .caller } traceDeadline' = some (some "cancel-isolation", [(0, .ctxErr), (1, .fetchErr .cancelled)]) := by decide
+
+/-- why cancellation tests do not notice a kept deadline: an explicit `cancel()` of the starter is still detached there -/
+example : verdict { fixedFacts with spawnCtx := .deadlineOnly } traceA = some (none, [(0, .ctxErr), (1, .payload 2)]) := by decide
+
+/-- a starter whose deadline has passed before it creates the download: with a kept deadline the download is dead on arrival -/
+example : verdict { fixedFacts with spawnCtx := .deadlineOnly }
+    [.rotate [{ jwk := wk1 }], .start 0 (wtok "k1" 2 1), .expire 0, .start 1 (wtok "k1" 2 2), .cacheRead 0, .cacheRead 1, .enter 0, .enter 1, .upd 0, .wake 1 false]
+    = some (some "cancel-isolation", [(1, .fetchErr .cancelled)]) := by decide
+
+/-- the monitor itself, on the observed run of the seeded change: the joiner's context is live, the download ended with the starter's deadline -/
+example : C13.monitor false
+    [.rotate [{ jwk := wk1 }], .start 0 (wtok "k1" 2 1), .start 1 (wtok "k1" 2 2), .ask 0, .fetchBegin 0 0, .ask 1, .expire 0, .fetchEnd 0 none,
+     .finish 0 .ctxErr, .announce 0, .retire 0, .finish 1 (.fetchErr .cancelled)] = some "cancel-isolation" := by decide
+
+/-- … and a call whose OWN deadline has passed may be answered with the context error (it is not live any more) -/
+example : C13.monitor false
+    [.rotate [{ jwk := wk1 }], .start 0 (wtok "k1" 2 1), .start 1 (wtok "k1" 2 2), .ask 0, .fetchBegin 0 0, .ask 1, .expire 1,
+     .finish 1 .ctxErr, .fetchEnd 0 (some (ansOk [{ jwk := wk1 }])), .announce 0, .retire 0, .finish 0 (.payload 1)] = none := by decide
 
 /-! ## Part 3 — non-vacuity: the window between a call's cache lookup and `keysFromRemote`'s critical section -/
 
